@@ -207,9 +207,11 @@ def rule_R(ctx):
         evs = [e for e in o3[0].state.events if e.kind == 'store']
         a, b = l0.target.id, l1.target.id
         idx = '%s, %s' % (a, b)
+        def ix(e):
+            return ', '.join(repr(x) for x in e.index) if isinstance(e.index, tuple) else str(e.index)
         cm = f.params[0]
-        okv = any(str(e.index) == idx and isinstance(e.value, Rat) and e.value.single_atom() == '%s[%s]' % (cm, idx) for e in evs)
-        okm = any(str(e.index) == idx and isinstance(e.value, Rat) and e.value.isconst() and e.value.constval() < 0 for e in evs)
+        okv = any(ix(e) == idx and isinstance(e.value, Rat) and e.value.single_atom() == '%s[%s]' % (cm, idx) for e in evs)
+        okm = any(ix(e) == idx and isinstance(e.value, Rat) and e.value.isconst() and e.value.constval() < 0 for e in evs)
         okr = r0 and r1 and w.rel.is_zero(r0[0]) and w.rel.is_zero(r0[1] - N) and w.rel.is_zero(r1[1] - N) and \
             (w.rel.is_zero(r1[0] - Rat.atom(a)) or w.rel.is_zero(r1[0]))
         wit = {'stores': [repr(e) for e in evs], 'ranges': [[repr(x) for x in r0] if r0 else None, [repr(x) for x in r1] if r1 else None]}
